@@ -343,6 +343,34 @@ def correspondence(pid, tier, seed, res, lines_extra=None):
 
 # --------------------------------------------------------------------------------------------
 
+def regen_certs_if_db_changed():
+    """C04's certificates (factorisations, Pratt lines, Rabin witnesses) are untrusted hints generated from the
+    database; when the database file differs from the one they were generated for, regenerate them first, so
+    that a harmless change of the data (another valid polynomial, a corrected entry) is re-proved instead of
+    reported. A certificate that cannot be produced or does not check leaves the theorem broken."""
+    import hashlib
+    dbfile = os.path.join(REPO, "finitefield", "conway", "cpimport.go")
+    shafile = os.path.join(LEAN, "Algobra", "Certs", "db.sha256")
+    try:
+        cur = hashlib.sha256(open(dbfile, "rb").read()).hexdigest()
+    except Exception:
+        return
+    old = open(shafile).read().strip() if os.path.exists(shafile) else ""
+    if cur == old:
+        return
+    if not old:
+        # first run: the committed certificates belong to the committed Gen/ConwayText.lean
+        base = subprocess.run(["git", "-C", VERIF, "diff", "--quiet", "HEAD", "--", "lean/Algobra/Gen/ConwayText.lean"])
+        if base.returncode == 0:
+            open(shafile, "w").write(cur + "\n")
+            return
+    p = subprocess.run(["python3-vt", os.path.join(VERIF, "tools", "gen_certs.py")], capture_output=True, text=True,
+                       env=dict(os.environ, VERIF_REPO=REPO), timeout=1800)
+    log("gen_certs.py: rc=%d %s" % (p.returncode, (p.stdout + p.stderr)[-300:].replace("\n", " ")))
+    if p.returncode == 0:
+        open(shafile, "w").write(cur + "\n")
+
+
 def load_manifest_note(pid):
     return ""
 
@@ -363,6 +391,8 @@ def main():
         return res.finish("proof", {"obligations": 1, "discharged": 0, "checker_cmd": "lake build", "trusted_base": [],
                                     "explanation": "harness/extractor build failed"}, [])
     drv_ok, drv_out = lake_build(["algobra_model"])
+    if pid == "C04":
+        regen_certs_if_db_changed()
     pinfo = proof_side(pid, res, tier)
     import props
     extra = props.EXTRA.get(pid)
